@@ -37,7 +37,9 @@ def _case(draw):
         if draw(st.sampled_from([True, True, False])):
             a0 = draw(st.one_of(st.floats(0.01, 8.0), st.sampled_from([1.0, 2.0, 4.0, 4.5, 5.0])))
             a1 = draw(st.one_of(st.sampled_from([1.0, 0.1, 0.0]), st.floats(0.01, 10.0)))
-            pne.append('%r,%r' % (a0, a1))
+            # the non-standard zero offset may be written in any spelling of zero
+            a1s = draw(st.sampled_from(['0.0', '0', '0.000000', '0.00', '0e0'])) if a1 == 0.0 else repr(a1)
+            pne.append('%r,%s' % (a0, a1s))
         else:
             pne.append('0,0')
     spec['pne'] = pne
